@@ -19,6 +19,7 @@ import JanetModel.Peg.CompileFlag
 import JanetModel.Peg.Skel
 import JanetModel.Peg.FuelMono
 import JanetModel.Peg.FuelMonoDen
+import JanetModel.Peg.FuelMonoEntry
 
 namespace JanetModel.Props.C12
 open JanetModel.Peg
@@ -580,6 +581,45 @@ example :
       (initSt { text := [97], args := [], hasBackref := false } 1024) 0) = 0
     ∧ fuelTag (Op.run { text := [97], args := [], hasBackref := false } (decode ⟨#[17, 3, 0, 13, 6, 0, 0, 1, 97], #[]⟩) 3 0
       (initSt { text := [97], args := [], hasBackref := false } 1024) 0) = 4 := by
+  decide
+
+
+/-- **entry_points_fuel_mono.**  Fuel monotonicity at the API: for every program, main rule, recursion guard, text, start,
+    substitute and fuels `f ≤ g`, whatever `peg/match`, `peg/find`, `peg/find-all`, `peg/replace`, `peg/replace-all` answer over
+    the operational model at fuel `f` - other than `Err.fuel` - they answer at fuel `g`. -/
+theorem entry_points_fuel_mono {ρ : Type} (E : Env) (fetch : ρ → Option (Instr ρ)) (main : ρ) (f g : Nat) (hfg : f ≤ g)
+    (guard start : Nat) (subst : Val) (one : Bool) :
+    let m := opMatcher E fetch main f guard
+    let m' := opMatcher E fetch main g guard
+    (pegMatch m start ≠ .error .fuel → pegMatch m' start = pegMatch m start)
+    ∧ (pegFind m E.text.length start ≠ .error .fuel → pegFind m' E.text.length start = pegFind m E.text.length start)
+    ∧ (pegFindAll m E.text.length start ≠ .error .fuel → pegFindAll m' E.text.length start = pegFindAll m E.text.length start)
+    ∧ (pegReplace m E.text subst one start ≠ .error .fuel → pegReplace m' E.text subst one start = pegReplace m E.text subst one start) := by
+  intro m m'
+  have h : Entry.MLe m m' := Entry.opMatcher_mono E fetch main f g hfg guard
+  exact ⟨Entry.FLe.eq_of_ne (Entry.pegMatch_mono h start), Entry.FLe.eq_of_ne (Entry.pegFind_mono h _ start),
+    Entry.FLe.eq_of_ne (Entry.pegFindAll_mono h _ start), Entry.FLe.eq_of_ne (Entry.pegReplace_mono h _ subst one start)⟩
+
+/-- the same over the denotation -/
+theorem entry_points_fuel_mono_den {ρ : Type} (E : Env) (fetch : ρ → Option (Instr ρ)) (main : ρ) (f g : Nat) (hfg : f ≤ g)
+    (guard start : Nat) (subst : Val) (one : Bool) :
+    let m := denMatcher E fetch main f guard
+    let m' := denMatcher E fetch main g guard
+    (pegMatch m start ≠ .error .fuel → pegMatch m' start = pegMatch m start)
+    ∧ (pegFind m E.text.length start ≠ .error .fuel → pegFind m' E.text.length start = pegFind m E.text.length start)
+    ∧ (pegFindAll m E.text.length start ≠ .error .fuel → pegFindAll m' E.text.length start = pegFindAll m E.text.length start)
+    ∧ (pegReplace m E.text subst one start ≠ .error .fuel → pegReplace m' E.text subst one start = pegReplace m E.text subst one start) := by
+  intro m m'
+  have h : Entry.MLe m m' := Entry.denMatcher_mono E fetch main f g hfg guard
+  exact ⟨Entry.FLe.eq_of_ne (Entry.pegMatch_mono h start), Entry.FLe.eq_of_ne (Entry.pegFind_mono h _ start),
+    Entry.FLe.eq_of_ne (Entry.pegFindAll_mono h _ start), Entry.FLe.eq_of_ne (Entry.pegReplace_mono h _ subst one start)⟩
+
+/-- non-vacuity: `peg/find-all` of `(% (<- "a"))` over "aba" with fuel 3 answers [0, 2] (not `Err.fuel`), with fuel 2 `Err.fuel` -/
+example :
+    (match pegFindAll (opMatcher { text := [97, 98, 97], args := [], hasBackref := false }
+        (decode ⟨#[17, 3, 0, 13, 6, 0, 0, 1, 97], #[]⟩) 0 3 1024) 3 0 with | .ok l => some l | .error _ => none) = some [0, 2]
+    ∧ (match pegFindAll (opMatcher { text := [97, 98, 97], args := [], hasBackref := false }
+        (decode ⟨#[17, 3, 0, 13, 6, 0, 0, 1, 97], #[]⟩) 0 2 1024) 3 0 with | .error .fuel => true | _ => false) = true := by
   decide
 
 /-- non-vacuity for the denotational side: same program, fuel 2 answers `Err.fuel`, fuel 3 a match ending at 1 - so the first
